@@ -57,7 +57,7 @@ class NativeBytecode:
                     continue
                 if t_[1] == "OK":
                     bits = t_[3] if len(t_) > 3 else ""
-                    out[t_[0]] = ("OK", t_[2], bits if bits == "nan" or t_[2] in ("Str", "Other") else int(bits, 16))
+                    out[t_[0]] = ("OK", t_[2], bits if bits == "nan" or t_[2] in ("Str", "Other", "Vector") else int(bits, 16))
                 else:
                     out[t_[0]] = (t_[1],)
         if len(out) != len(vectors):
